@@ -56,6 +56,8 @@ func c16(w *core.World, r *core.Report) {
 	ruleJointUnderGc(w, r)
 	r.Rule("R16.12", "the handshake frame answers only a follower that named no replication id", 1)
 	ruleHandshakeOnlyForNewFollower(w, r)
+	r.Rule("R06.8", "the follower's disk cache re-reads its directory whenever the leader's id is (re)confirmed: a snapshot whose transfer broke off is not reported to the leader as held (shared with C06; seed C16-14)", 2)
+	ruleCacheRefreshed(w, r)
 }
 
 func isReqGetter(name string) func(ssa.Value) bool {
